@@ -13,7 +13,13 @@ static DetectorErrorModel gen_small_model(Rng &rng, Stats &st, bool &has_dup) {
     static const std::vector<double> PS = {0.1, 0.01, 0.25, 0.5, 0.75, 0.0};
     int style = (int)rng.below(4);  // 0 graphlike chain, 1 random graphlike, 2 hypergraph, 3 with separators
     auto D = [&](uint64_t k) { return DemTarget::relative_detector_id(k); };
-    auto L = [&](uint64_t k) { return DemTarget::observable_id(k); };
+    // observable ids: usually 0..no-1; in a quarter of the models sparse ids around the 64-bit word boundaries of the observable masks
+    std::vector<uint64_t> obs_ids;
+    bool sparse_ids = rng.chance(0.25);
+    static const std::vector<uint64_t> BIG = {63, 64, 65, 70, 127, 128, 129, 200, 1200};
+    for (size_t i = 0; i < 70; i++) obs_ids.push_back(sparse_ids && i < 3 ? (rng.chance(0.8) ? rng.pick(BIG) : i) : i);
+    if (sparse_ids) st.hit("model.sparse_observable_ids");
+    auto L = [&](uint64_t k) { return DemTarget::observable_id(obs_ids[k]); };
     if (style == 0) {
         // a chain with boundaries: the classic repetition-code shape, plus extras
         std::vector<DemTarget> t = {D(0)};
